@@ -53,9 +53,44 @@ def _tobool(a):
     return a
 
 
+def _concrete_key(key):
+    """an index that is an object array of bools / SymBools (the result of a comparison on proxies) becomes a bool array: every
+    symbolic entry is decided by the path (bool() splits), as numpy's mask indexing needs concrete membership"""
+    if isinstance(key, _np.ndarray) and key.dtype == object and key.size and all(
+            isinstance(e, (bool, _np.bool_, sx.SymBool)) for e in key.reshape(-1)):
+        out = _np.empty(key.shape, dtype=bool)
+        flat = out.reshape(-1)
+        for i, e in enumerate(key.reshape(-1)):
+            flat[i] = bool(e)
+        return out
+    if isinstance(key, tuple):
+        return tuple(_concrete_key(k) for k in key)
+    return key
+
+
+class IntArr(_np.ndarray):
+    """concrete integer array (np.arange) that accepts masks computed on proxies as an index"""
+
+    def __getitem__(self, key):
+        return _np.ndarray.__getitem__(self, _concrete_key(key))
+
+    def __setitem__(self, key, value):
+        return _np.ndarray.__setitem__(self, _concrete_key(key), value)
+
+
 class ObjArr(_np.ndarray):
     """object ndarray that keeps numpy's float semantics where plain object arrays differ:
     the sum of an empty float array is 0.0 (numpy float64), not the int 0"""
+
+    def __getitem__(self, key):
+        if isinstance(key, (_np.ndarray, tuple)):
+            key = _concrete_key(key)
+        return _np.ndarray.__getitem__(self, key)
+
+    def __setitem__(self, key, value):
+        if isinstance(key, (_np.ndarray, tuple)):
+            key = _concrete_key(key)
+        return _np.ndarray.__setitem__(self, key, value)
 
     def sum(self, axis=None, *a, **k):
         if self.size == 0 and axis is None:
@@ -66,6 +101,16 @@ class ObjArr(_np.ndarray):
         if isinstance(r, (int, float)) and not isinstance(r, _np.generic):
             return _np.float64(r)
         return r
+
+    def astype(self, dtype, *a, **k):
+        # candles[:, j].astype(np.float64) on a matrix of proxies: the values already are "floats" (reals)
+        try:
+            is_float = _np.issubdtype(_np.dtype(dtype), _np.floating)
+        except TypeError:
+            is_float = False
+        if is_float and any(sx.is_sym(e) for e in self.reshape(-1)):
+            return self.copy()
+        return _np.ndarray.astype(self, dtype, *a, **k)
 
 
 def _mk_reduction(name):
@@ -157,6 +202,36 @@ class NPShim:
         if dtype in (float, _np.float64, 'float', 'float64') and _has_sym(x):
             return _numpyfy(_np.array(x, dtype=object))
         return _np.asarray(x, dtype=dtype, **kw)
+
+    def arange(self, *a, **kw):
+        r = _np.arange(*a, **kw)
+        return r.view(IntArr) if r.dtype.kind in 'iu' else r
+
+    def interp(self, x, xp, fp, left=None, right=None, **kw):
+        arrs = [_np.asarray(v) for v in (x, xp, fp)]
+        if not any(a.dtype == object for a in arrs) or kw:
+            return _np.interp(x, xp, fp, left=left, right=right, **kw)
+        xs, xps, fps = arrs[0], list(arrs[1].reshape(-1)), list(arrs[2].reshape(-1))
+        if not xps:
+            raise ValueError('array of sample points is empty')
+
+        def one(xv):
+            # piecewise-linear interpolation over increasing sample points (comparisons on proxies split the path)
+            if xv < xps[0]:
+                return fps[0] if left is None else left
+            if xv >= xps[-1]:
+                return (fps[-1] if right is None else right) if xv > xps[-1] else fps[-1]
+            for j in range(len(xps) - 1):
+                if xv < xps[j + 1]:
+                    return (fps[j + 1] - fps[j]) / (xps[j + 1] - xps[j]) * (xv - xps[j]) + fps[j]
+            return fps[-1]
+        if xs.ndim == 0:
+            return one(xs.item())
+        out = _np.empty(xs.shape, dtype=object)
+        flat = out.reshape(-1)
+        for i, xv in enumerate(xs.reshape(-1)):
+            flat[i] = one(xv)
+        return _numpyfy(out).view(ObjArr)
 
     def concatenate(self, arrs, axis=0, **kw):
         return _view(_np.concatenate(arrs, axis=axis, **kw))
@@ -360,6 +435,12 @@ class NPShim:
 
     def average(self, a, axis=None, weights=None, **kw):
         if isinstance(a, _np.ndarray) and a.dtype == object or (isinstance(weights, _np.ndarray) and weights.dtype == object):
+            if isinstance(a, _np.ndarray) and a.ndim == 2 and axis in (-1, 1) and (weights is None or _np.ndim(weights) == 1):
+                # row-wise (weighted) average, as used on sliding_window_view(...) by the windowed moving averages
+                out = _np.empty(a.shape[0], dtype=object)
+                for i in range(a.shape[0]):
+                    out[i] = self.average(a[i], weights=weights)
+                return out.view(ObjArr)
             if axis not in (None, 0) or (isinstance(a, _np.ndarray) and a.ndim != 1):
                 raise NotImplementedError('average along an axis of an object array')
             if weights is None:
